@@ -269,6 +269,7 @@ struct Scan<'a> {
     loops: Vec<LoopInfo>,
     stmts: Vec<StmtInfo>,
     calls: Vec<CallInfo>,
+    closures: Vec<((usize, usize), (usize, usize))>,
 }
 
 fn pat_idents(p: &syn::Pat, out: &mut Vec<String>) {
@@ -314,6 +315,10 @@ impl<'a, 'ast> Visit<'ast> for Scan<'a> {
             self.calls.push(CallInfo { name: last_seg(&p.path), range: self.src.range(c.span()) });
         }
         syn::visit::visit_expr_call(self, c);
+    }
+    fn visit_expr_closure(&mut self, c: &'ast syn::ExprClosure) {
+        self.closures.push((self.src.range(c.span()), self.src.range(c.body.span())));
+        syn::visit::visit_expr_closure(self, c);
     }
     fn visit_expr_for_loop(&mut self, f: &'ast syn::ExprForLoop) {
         let (o, c) = (self.src.off(f.body.brace_token.span.open().start()), self.src.off(f.body.brace_token.span.close().start()));
@@ -791,6 +796,15 @@ fn process_fn(ctx: &mut Ctx, d: &FnDirective, assume_default: bool, tfile: &str)
             ed.replace(vs.0, vs.1, vec![Piece::Lit(v.to_string())], "vis");
         }
     }
+    // R18: a wildcard parameter `_: T` becomes `_pN: T` (Verus wants plain identifier parameters)
+    for (n, arg) in loc.sig.inputs.iter().enumerate() {
+        if let syn::FnArg::Typed(pt) = arg {
+            if let syn::Pat::Wild(w) = &*pt.pat {
+                let (a, b) = src.range(w.span());
+                ed.replace(a, b, vec![Piece::Lit(format!("_p{}", n))], "R18");
+            }
+        }
+    }
     // R0: named return value
     if let Some(r) = &d.ret {
         match &loc.sig.output {
@@ -815,7 +829,7 @@ fn process_fn(ctx: &mut Ctx, d: &FnDirective, assume_default: bool, tfile: &str)
         let head = ed.render(fstart, block_open, None);
         format!("#[verifier::external_body]\n    {}\n{}    {{ unimplemented!() }}", head.trim_end(), sig_text)
     } else {
-        let mut scan = Scan { src, loops: vec![], stmts: vec![], calls: vec![] };
+        let mut scan = Scan { src, loops: vec![], stmts: vec![], calls: vec![], closures: vec![] };
         scan.visit_block(loc.block);
         // innermost statement containing a range
         let stmt_of = |r: (usize, usize), stmts: &Vec<StmtInfo>| -> Option<(usize, usize)> {
@@ -877,6 +891,13 @@ fn process_fn(ctx: &mut Ctx, d: &FnDirective, assume_default: bool, tfile: &str)
                     } else {
                         ed.insert(st.1, format!("\n{}", t.trim_end_matches('\n')), 1, a);
                     }
+                }
+                "closure" => {
+                    // `closure k`: the header of the k-th closure (params, return name, ensures) is replaced by the given text;
+                    // the body text is kept verbatim inside a block
+                    let k: usize = words.get(1).and_then(|w| w.parse().ok()).unwrap_or_else(|| lost("bad closure index"));
+                    let (whole, body) = *scan.closures.get(k).unwrap_or_else(|| lost("no such closure"));
+                    ed.replace(whole.0, whole.1, vec![Piece::Lit(format!("{} {{ ", t.trim())), Piece::Sub(body.0, body.1), Piece::Lit(" }".into())], a);
                 }
                 "before_tail" => {
                     let last = loc.block.stmts.last().unwrap_or_else(|| lost("empty body"));
@@ -1139,7 +1160,7 @@ fn process_template(ctx: &mut Ctx, path: &Path, assume: bool, depth: usize) {
                     ctx.src(&file);
                     let src = &ctx.srcs[&file];
                     let loc = find_fn(&src.ast.items, &fname).unwrap_or_else(|| fail(format!("{}:{}: function {} not found in {}", tfile, tline, fname, file)));
-                    let mut scan = Scan { src, loops: vec![], stmts: vec![], calls: vec![] };
+                    let mut scan = Scan { src, loops: vec![], stmts: vec![], calls: vec![], closures: vec![] };
                     scan.visit_block(loc.block);
                     let st = scan.stmts.iter().find(|s| s.lets.iter().any(|l| *l == letname))
                         .unwrap_or_else(|| fail(format!("{}:{}: lost anchor: no `let {}` in {}", tfile, tline, letname, fname)));
